@@ -77,6 +77,16 @@ VARIANTS = [
              "                        if not cls._SWALLOW_ADDON_EXCEPTIONS:\n"
              "                            raise\n"),
      "new": "                    cls._handle_command(session, region, message[\"ChatData\"][\"Message\"])\n"},
+    {"name": "R1 handler formats the hook's kwargs eagerly (f-string)", "file": ADDONS, "expect": "C07.R1",
+     "old": "            logging.exception(\"Exploded in %r's %s hook\" % (addon, hook_name))\n",
+     "new": "            logging.exception(f\"Exploded in {addon!r}'s {hook_name} hook, called with {kwargs!r}\")\n"},
+    {"name": "R1 handler summarises the hook's args with a helper call", "file": ADDONS, "expect": "C07.R1",
+     "old": "            logging.exception(\"Exploded in %r's %s hook\" % (addon, hook_name))\n",
+     "new": "            logging.exception(\"Exploded in %r's %s hook\" % (addon, hook_name))\n"
+            "            logging.error(\"first argument was %s\", str(args[0]) if args else None)\n"},
+    {"name": "P R1 handler logs the hook's args lazily", "file": ADDONS, "expect": "silent",
+     "old": "            logging.exception(\"Exploded in %r's %s hook\" % (addon, hook_name))\n",
+     "new": "            logging.exception(\"Exploded in %r's %s hook, args: %r\", addon, hook_name, args)\n"},
     {"name": "P R1 bare except -> except BaseException", "file": ADDONS, "expect": "silent",
      "old": _HOOK_TAIL, "new": _HOOK_TAIL.replace("        except:\n", "        except BaseException:\n")},
     {"name": "P R1 rename hook_func local", "expect": "silent",
